@@ -388,7 +388,7 @@ func classify(s []relayEv) string {
 // tmEvent: 'S' handler start, 'F' handler finish, 'I' SIGINT, 'T' SIGTERM.
 // A history is a list of groups; the events of one group are released at the
 // same virtual instant (concurrent senders).
-func runTermMon(c *Case, r *Run, groups []string) {
+func runTermMon(c *Case, r *Run, groups []string, window time.Duration) {
 	// The monitor is built by the program's own constructor and driven only
 	// through what the program itself uses: onHandlerStart / onHandlerFinish
 	// (called by connection handlers), the signal channel, and wait().
@@ -399,9 +399,14 @@ func runTermMon(c *Case, r *Run, groups []string) {
 	var firstSig os.Signal
 	var secondRet os.Signal
 	c.Go(func() { close(mainDone) }, func() {
-		// what main() does after set-up
+		// what main() does after set-up: wait for a signal; after a SIGINT close
+		// the listeners (that takes a moment: the window) and wait for the
+		// handlers to finish
 		if firstSig = m.wait(false); firstSig == syscall.SIGTERM {
 			return
+		}
+		if window > 0 {
+			time.Sleep(window)
 		}
 		secondRet = m.wait(true)
 	})
@@ -416,7 +421,16 @@ func runTermMon(c *Case, r *Run, groups []string) {
 			m.onHandlerStart() // may block for as long as nobody is in wait()
 			sReturned.Add(1)   // from here on the handler is relaying
 		case 'F':
-			fCalled.Add(1) // the handler is done, whenever the monitor takes note
+			// a handler finishes only if it got past its start
+			for {
+				cur := fCalled.Load()
+				if sReturned.Load()-cur <= 0 {
+					return
+				}
+				if fCalled.CompareAndSwap(cur, cur+1) {
+					break
+				}
+			}
 			m.onHandlerFinish()
 		case 'I', 'T':
 			var s os.Signal = syscall.SIGINT
@@ -432,23 +446,34 @@ func runTermMon(c *Case, r *Run, groups []string) {
 			}
 		}
 	}
-	// release group after group, each at its own virtual instant, and let the
-	// system come to rest in between
+	isReturned := func() bool {
+		select {
+		case <-mainDone:
+			return true
+		default:
+			return false
+		}
+	}
+	// release group after group, each at its own virtual instant (1 ms apart),
+	// let the system come to rest in between and note what is observable then
+	type snapT struct {
+		sRet, fCalled int64
+		returned      bool
+	}
+	var snaps []snapT
 	for gi, g := range groups {
 		for i := 0; i < len(g); i++ {
 			wg.Add(1)
 			go send(gi, g[i])
 		}
 		synctest.Wait()
+		snaps = append(snaps, snapT{sReturned.Load(), fCalled.Load(), isReturned()})
 		time.Sleep(time.Millisecond)
 	}
+	time.Sleep(window + time.Millisecond)
 	synctest.Wait()
-	returned := false
-	select {
-	case <-mainDone:
-		returned = true
-	default:
-	}
+	snaps = append(snaps, snapT{sReturned.Load(), fCalled.Load(), isReturned()})
+	returned := snaps[len(snaps)-1].returned
 	mu.Lock()
 	var seqParts []string
 	for _, cg := range consumed {
@@ -457,44 +482,60 @@ func runTermMon(c *Case, r *Run, groups []string) {
 	mu.Unlock()
 	seq := strings.Join(seqParts, ",")
 
-	// ---- model: the order in which the monitor sees the events of one
-	// instant is the scheduler's choice, so the observation (which signals of
-	// every group were received, and whether main has returned) is accepted if
-	// SOME order within the groups explains it.
+	// ---- judgement, in the property's own terms.  A handler is active from
+	// the moment its onHandlerStart() has returned until it calls
+	// onHandlerFinish().  (1) wait() returns only for a reason: a SIGTERM, a
+	// second SIGINT, or - after one SIGINT - no handler being active; (2) it
+	// does not return by the last rule while handlers that were already active
+	// at the previous quiescent point have not finished; (3) once the reason
+	// exists and everything is at rest, it has returned.  Which of several
+	// events of one instant the monitor sees first is the scheduler's choice;
+	// nothing here depends on it.
 	r.Count("evaluations", 1)
 	r.Count("termmon_histories", 1)
 	hist := strings.Join(groups, ",")
+	if window > 0 {
+		hist += fmt.Sprintf(" (window %v between the two waits)", window)
+		r.Count("termmon_histories_with_window", 1)
+	}
 	wit := map[string]any{"history": hist, "signals_received": seq, "returned": returned}
-	explained, whys := tmExplain(groups, seqParts, returned)
-	// what the script order itself (first linearization) demands, for the message
-	_, _, mustReturn, why, active := tmRun(strings.Join(groups, ""))
 	cls := tmClass(hist)
-	if !explained {
-		switch {
-		case !returned && mustReturn:
-			c.Violation("termmon/shutdown-does-not-complete/"+slug(why), fmt.Sprintf("history %s (signals received %q): %s, but the main goroutine is still blocked in wait() at quiescence (handler count in the model: %d)", hist, seq, why, active), wit)
-		case returned && !mustReturn:
-			c.Violation("termmon/returned-without-cause/"+cls, fmt.Sprintf("history %s (signals received %q): wait returned (first=%v second=%v) although no signal requires it and the handler count is %d", hist, seq, firstSig, secondRet, active), wit)
-		default:
-			c.Violation("termmon/returned-at-wrong-point/"+cls, fmt.Sprintf("history %s: signals received %q, returned=%v is not explained by any order of the simultaneous events", hist, seq, returned), wit)
+	nI, nT := strings.Count(seq, "I"), strings.Count(seq, "T")
+	bySignal := nT > 0 || nI >= 2
+	last := snaps[len(snaps)-1]
+	active := last.sRet - last.fCalled
+	switch {
+	case returned && nI+nT == 0:
+		c.Violation("termmon/returned-without-cause/"+cls, fmt.Sprintf("history %s: wait returned (first=%v second=%v) although no signal was received", hist, firstSig, secondRet), wit)
+	case returned && !bySignal:
+		// returned because no handler was active: check the handlers that were
+		// active at the quiescent point before the one at which the return shows
+		ri := 0
+		for ri < len(snaps) && !snaps[ri].returned {
+			ri++
 		}
-	} else if returned && !strings.Contains(seq, "T") && strings.Count(seq, "I") == 1 && sReturned.Load()-fCalled.Load() > 0 {
-		// main returned because "no handler is active" (one SIGINT received, no
-		// SIGTERM) while handlers whose onHandlerStart() had returned - they are
-		// relaying - have not finished: the shutdown completed underneath them
-		c.Violation("termmon/shutdown-completed-with-active-handlers/"+cls, fmt.Sprintf("history %s (signals received %q): the graceful shutdown completed although %d handler(s) had got past onHandlerStart() and %d had finished", hist, seq, sReturned.Load(), fCalled.Load()), wit)
-	} else if returned {
-		for _, w := range whys {
-			switch w {
-			case "shutdown requested while no handler was active":
-				r.Count("termmon_shutdown_with_zero_handlers", 1)
-			case "last handler finished after the shutdown request":
-				r.Count("termmon_shutdown_after_last_finish", 1)
-			case "SIGTERM":
-				r.Count("termmon_sigterm_immediate", 1)
-			}
+		var before int64
+		if ri > 0 {
+			before = snaps[ri-1].sRet
 		}
-	} else {
+		if before-snaps[ri].fCalled > 0 {
+			c.Violation("termmon/shutdown-completed-with-active-handlers/"+cls, fmt.Sprintf("history %s (signals received %q): the graceful shutdown completed although %d handler(s) had got past onHandlerStart() before and only %d had finished", hist, seq, before, snaps[ri].fCalled), wit)
+		} else if last.sRet == 0 {
+			r.Count("termmon_shutdown_with_zero_handlers", 1)
+		} else {
+			r.Count("termmon_shutdown_after_last_finish", 1)
+		}
+	case returned:
+		r.Count("termmon_sigterm_immediate", 1)
+	case bySignal:
+		c.Violation("termmon/shutdown-does-not-complete/signal-ignored", fmt.Sprintf("history %s (signals received %q): a SIGTERM or a second SIGINT was received but the main goroutine is still blocked in wait() at quiescence", hist, seq), wit)
+	case nI == 1 && active == 0:
+		why := "last handler finished after the shutdown request"
+		if last.sRet == 0 {
+			why = "shutdown requested while no handler was active"
+		}
+		c.Violation("termmon/shutdown-does-not-complete/"+slug(why), fmt.Sprintf("history %s (signals received %q): %s, but the main goroutine is still blocked in wait() at quiescence (%d handlers started, %d finished)", hist, seq, why, last.sRet, last.fCalled), wit)
+	default:
 		r.Count("termmon_still_waiting_as_expected", 1)
 	}
 	r.Distinct("nontrivial", "tm/"+hist)
@@ -1084,7 +1125,9 @@ func TestCheck(t *testing.T) {
 								c.Violation("termmon/panic-or-wedge", fmt.Sprintf("%v; history %v", e, g), nil)
 							}
 						}()
-						synctest.Test(c.T, func(t *testing.T) { runTermMon(c, r, g) })
+						for _, win := range []time.Duration{0, 2 * time.Millisecond} {
+								synctest.Test(c.T, func(t *testing.T) { runTermMon(c, r, g, win) })
+							}
 					}()
 				}
 			}
@@ -1184,7 +1227,9 @@ func TestCheck(t *testing.T) {
 							stop = true
 						}
 					}()
-					synctest.Test(c.T, func(t *testing.T) { runTermMon(c, r, g) })
+					for _, win := range []time.Duration{0, 2 * time.Millisecond} {
+								synctest.Test(c.T, func(t *testing.T) { runTermMon(c, r, g, win) })
+							}
 				}()
 				r.Count("termmon_repeated_same_instant_histories", 1)
 				if stop {
